@@ -226,11 +226,16 @@ fn tokenize(uri: &str) -> Result<Parsed<'_>, String> {
 // ---------------------------------------------------------------- one case
 
 fn build(t: &Template, vals: &[String]) -> Result<http::Uri, String> {
+    build_from(t, vals, false)
+}
+
+/// `via_default`: start from the builder's `Default` value rather than `UriBuilder::new()`
+fn build_from(t: &Template, vals: &[String], via_default: bool) -> Result<http::Uri, String> {
     if let Some(p) = t.producer {
         return p(vals);
     }
     vcommon::catch(|| {
-        let mut b = UriBuilder::new();
+        let mut b = if via_default { UriBuilder::default() } else { UriBuilder::new() };
         let mut vi = 0;
         // literals are pushed the way generated code pushes them: consecutive literal
         // segments as one "/a/b" string
@@ -326,6 +331,14 @@ fn check_len(t: &Template, vals: &[String], rt: &ConjureRuntime, r: &mut Report,
         }
     };
     let text = uri.to_string();
+    // the builder's other constructor produces the same request target
+    if t.producer.is_none() {
+        let other = build_from(t, vals, true).map(|u| u.to_string());
+        if other.as_deref() != Ok(text.as_str()) {
+            fail(r, "default-constructed-builder-differs", format!("UriBuilder::default() built {:?}, UriBuilder::new() built {:?} for {:?}", other, text, vals));
+            return;
+        }
+    }
     if let Some(l) = expected_len {
         if text.len() != l {
             fail(r, "unexpected-length", format!("URI has {} bytes, expected {}", text.len(), l));
